@@ -11,7 +11,7 @@
     0 = "", 3 = "!bad" and 12 = "htlt!x" (98 = any other invalid string) are invalid; 1 = "stake" (the bond denom,
     held by every actor, a registered token); 2 = "tcoin" (valid, nobody holds it, not a registered
     token); 10, 11 = "htltbnb", "htltinc" (the only classes acceptable as HTLC assets); 99 = any
-    other valid denom; 4 = "btc" (valid, held by everybody); 5 = "feetok" (symbol of an issued token of scale 6).  Among the valid classes that can occur together in one coin set (1, 2) the
+    other valid denom; 4 = "btc" (valid, held by everybody); 5 = "feetok" (symbol of an issued token of scale 6); 6 = "ufeetok" (its min unit: a valid denom, not a symbol).  Among the valid classes that can occur together in one coin set (1, 2) the
     numeric order is the lexicographic order of the strings. *)
 From Irismod Require Export Base.Prelude Base.Dec.
 
@@ -95,16 +95,19 @@ Fixpoint coins_amount_of (d : Z) (l : list coin) : Z :=
     [via]: 0 = MsgUpdateParams signed by the authority, 1 = by anybody else, 2 = InitGenesis.
     Message: ValidateBasic runs [Params.Validate] first (a panic there aborts the message before the
     authority is even compared), then the handler compares the authority, then [SetParams] validates
-    again and stores.  Genesis: any failure is a panic of InitGenesis. *)
-Definition update_with {P : Type} (validate : P -> outcome) (genesis_extra : P -> bool)
+    again and stores.  Genesis: any failure is a panic of InitGenesis.
+    [genesis_extra] / [msg_extra]: a module-specific condition checked by InitGenesis after SetParams /
+    by the message handler between the authority comparison and SetParams (token: the issue fee is
+    denominated in a registered symbol; an ordinary rejection of the message, a panic of genesis). *)
+Definition update_with {P : Type} (validate : P -> outcome) (genesis_extra msg_extra : P -> bool)
            (via : Z) (p cur : P) : outcome * P :=
   match validate p with
   | Abort => (Abort, cur)
   | Rej => (if via =? 2 then Abort else Rej, cur)
   | Ok =>
       if via =? 1 then (Rej, cur)
-      else if (via =? 2) && negb (genesis_extra p) then (Abort, cur)
-      else (Ok, p)
+      else if via =? 2 then (if genesis_extra p then (Ok, p) else (Abort, cur))
+      else if msg_extra p then (Ok, p) else (Rej, cur)
   end.
 
 (** *** InitGenesis in two stages.
@@ -156,7 +159,7 @@ Definition validate_cs (p : cs_params) : outcome :=
            end
   end.
 
-Definition update_cs := update_with validate_cs (fun _ => true).
+Definition update_cs := update_with validate_cs (fun _ => true) (fun _ => true).
 
 Inductive cs_op :=
 | CsCreatePool (bal_std bal_fee bal_tok s t : Z)   (* MsgAddLiquidity on a pool that does not exist yet *)
@@ -278,7 +281,7 @@ Definition validate_fm (p : fm_params) : outcome :=
                 end
        end.
 
-Definition update_fm := update_with validate_fm (fun _ => true).
+Definition update_fm := update_with validate_fm (fun _ => true) (fun _ => true).
 
 (** farm types.ValidateGenesis: [ValidateCoins("PoolCreationFee", fee)] = [sdk.NewCoins(fee).Validate()];
     [NewCoins] panics on an invalid denom, a nil or a negative amount; nothing else about the parameters *)
@@ -364,7 +367,7 @@ Fixpoint validate_assets (seen : list Z) (l : list asset) : outcome :=
   end.
 
 Definition validate_ht (p : ht_params) : outcome := validate_assets [] p.
-Definition update_ht := update_with validate_ht (fun _ => true).
+Definition update_ht := update_with validate_ht (fun _ => true) (fun _ => true).
 
 (** asset supply as stored: incoming, outgoing, current, time-limited current; None = no record yet *)
 Definition supply := option (Z * Z * Z * Z).
@@ -495,7 +498,7 @@ Definition validate_sv (p : sv_params) : outcome :=
   else Ok
   end end end.
 
-Definition update_sv := update_with validate_sv (fun _ => true).
+Definition update_sv := update_with validate_sv (fun _ => true) (fun _ => true).
 
 Inductive sv_op :=
 | SvBind (price deposit qos bal pd : Z)  (* MsgBindService: price (in denom class pd) and deposit in stake *)
@@ -679,8 +682,11 @@ Definition validate_tk (p : tk_params) : outcome :=
     scale 6 that the driver issues before the parameters are touched *)
 Definition tk_registered (d : Z) : bool := (d =? 1) || (d =? 5).
 
-(** token InitGenesis additionally requires the fee denom to be a registered symbol *)
-Definition update_tk := update_with validate_tk (fun p => tk_registered (c_denom (tk_fee p))).
+(** token InitGenesis (a panic) and, since "fix: token MsgUpdateParams rejects an issue fee denominated in
+    an unregistered symbol", the message handler (an ordinary rejection) additionally require the fee
+    denom to be a registered SYMBOL ([HasSymbol]: a registered min unit such as 6 = "ufeetok" does not count) *)
+Definition tk_fee_registered (p : tk_params) : bool := tk_registered (c_denom (tk_fee p)).
+Definition update_tk := update_with validate_tk tk_fee_registered tk_fee_registered.
 
 Inductive tk_op :=
 | TkIssue (factor scale bal : Z)   (* MsgIssueToken: fee factor of the symbol (decimal), scale of the fee token,
